@@ -145,7 +145,7 @@ var prefixes = ev.NewCheck("C05", "prefixes",
 		return c
 	}, runPrefix)
 
-func TestPropPrefixes(t *testing.T) { prefixes.Rapid(t, 60, 400) }
+func TestPropPrefixes(t *testing.T) { prefixes.Rapid(t, 120, 400) }
 
 // ---- (b) grammar aware mutations, (c) random bytes -------------------------------------
 
@@ -287,7 +287,7 @@ var boundary = ev.NewCheck("C05", "boundary-inputs",
 	"hand written boundary inputs (ntrks 0 with a track chunk, stray data/system bytes where a status is required, garbage SMPTE bytes, format 3, declared lengths 2^25..2^28 without payload, cut-off channel messages, over-long VLQ, tempo 0, huge alien chunk length) and the literal files of the repository's tests; same oracle as 'mutations'",
 	nil, runMut)
 
-func TestPropMutations(t *testing.T) { mutants.Rapid(t, 2500, 30000) }
+func TestPropMutations(t *testing.T) { mutants.Rapid(t, 6000, 30000) }
 
 // ---- hand written boundary inputs -------------------------------------------------------
 
